@@ -294,7 +294,7 @@ func c12Program(s Src, maxOps int) (string, *C12Expect) {
 		for mi := 0; mi < nmut; mi++ {
 			kind := "literal"
 			if len(g.order) > 0 {
-				kind = Pick(s, "op", []string{"literal", "literal", "alias", "write-new", "write-existing", "write-existing", "delete", "delete", "fn-write", "fn-write-ret", "array-alias", "child", "child2", "child-write", "arr-prop", "arr-prop-write", "write-negzero", "write-rebinding", "chain-write", "mk-twice", "fn-delete", "empty-literal", "read", "rewrite-literal"})
+				kind = Pick(s, "op", []string{"literal", "literal", "alias", "write-new", "write-existing", "write-existing", "delete", "delete", "fn-write", "fn-write-ret", "array-alias", "child", "child2", "child-write", "arr-prop", "arr-prop-write", "write-negzero", "write-rebinding", "chain-write", "stateful-call-write", "mk-twice", "fn-delete", "empty-literal", "read", "rewrite-literal"})
 			}
 			opName := kind
 			switch kind {
@@ -432,6 +432,23 @@ func c12Program(s Src, maxOps int) (string, *C12Expect) {
 				g.add(fmt.Sprintf("%s.%s = (%s = %s);", a, k, a, b))
 				g.heap[ida][k] = C12Val{Ref: idb}
 				g.vars[a] = idb
+			case "stateful-call-write":
+				// nx().k1 = nx().k2 + 1 where every call of nx() returns the NEXT object:
+				// the object expression and the value expression are evaluated separately, in that order
+				a, b := g.pickVar("a"), g.pickVar("b")
+				ida, idb := g.vars[a], g.vars[b]
+				g.tmp++
+				t := g.tmp
+				src := g.val()
+				k1, k2 := Pick(s, "key", c12Keys), Pick(s, "key2", c12Keys)
+				g.add(fmt.Sprintf("%s.%s = %d;", b, k2, src))
+				g.heap[idb][k2] = C12Val{Num: src}
+				g.add(fmt.Sprintf("%s st%d = [%s, %s];", KwVar, t, a, b))
+				g.add(fmt.Sprintf("%s si%d = 0;", KwVar, t))
+				g.add(fmt.Sprintf("%s nx%d() { si%d = si%d + 1; %s st%d[si%d - 1]; }", KwFun, t, t, t, KwReturn, t, t))
+				g.add(fmt.Sprintf("nx%d().%s = nx%d().%s + 1;", t, k1, t, k2))
+				g.nval += 2
+				g.heap[ida][k1] = C12Val{Num: src + 1}
 			case "chain-write":
 				// a.k1 = b.k2 = v: both properties receive the value
 				a, b := g.pickVar("a"), g.pickVar("b")
@@ -634,6 +651,10 @@ func c12Cyclic() []*Case {
 		{"through-array", fmt.Sprintf("%s o = {list: [1, 2], delta: 4};\no.list[0] = o;\n%s \"@P\";\n%s o;\n%s o.list[0].delta;\n%s %s(o);\n%s \"@DONE\";\n", KwVar, P, P, P, P, FnValues, P), []string{"list", "delta"}},
 		{"deep-20", fmt.Sprintf("%s d = {leaf: 1};\n%s (%s i = 0; i < 20; i = i + 1) { d = {child: d, n: i}; }\n%s \"@P\";\n%s d;\n%s d.child.child.child.n;\n%s %s(d);\n%s \"@DONE\";\n", KwVar, KwFor, KwVar, P, P, P, P, FnKeys, P),
 			[]string{"leaf", "19", "#20xchild"}},
+		{"mutual-in-literal", fmt.Sprintf("%s ka = {alpha: 1};\n%s kb = {beta: 2};\nka.next = kb;\nkb.prev = ka;\n%s \"@P\";\n%s {first: ka, last: kb};\n%s ka.next.prev.alpha;\n%s %s({first: ka, last: kb});\n%s \"@DONE\";\n", KwVar, KwVar, P, P, P, P, FnKeys, P),
+			[]string{"first", "last", "#2xalpha", "#2xbeta", "next", "prev"}},
+		{"shared-twice-in-array", fmt.Sprintf("%s sh = {gamma: 3};\nsh.me = sh;\n%s \"@P\";\n%s [sh, sh, {delta: sh}];\n%s sh.me.gamma;\n%s %s(sh);\n%s \"@DONE\";\n", KwVar, P, P, P, P, FnKeys, P),
+			[]string{"#3xgamma", "delta"}},
 		{"repl-echo", "", nil},
 	}
 	var out []*Case
@@ -710,9 +731,12 @@ func c12Eval(cs *Case, ctx *EvalCtx) []Violation {
 				mk("output-truncated", fmt.Sprintf("stdout=%q", clip(o.Stdout)))
 			} else {
 				for _, t := range cs.Notes {
-					if strings.HasPrefix(t, "#20x") {
-						if strings.Count(ls[1], strings.TrimPrefix(t, "#20x")) < 20 {
-							mk("print-missing-property", fmt.Sprintf("printing a 20-deep nested object shows %q: fewer than 20 nested %q properties", clip(ls[1]), strings.TrimPrefix(t, "#20x")))
+					if strings.HasPrefix(t, "#") {
+						x := strings.Index(t, "x")
+						want, _ := strconv.Atoi(t[1:x])
+						tok := t[x+1:]
+						if strings.Count(ls[1], tok) < want {
+							mk("print-missing-property", fmt.Sprintf("printing shows %q: property %q must appear at least %d times (once per place the object is reached before it repeats)", clip(ls[1]), tok, want))
 							break
 						}
 						continue
